@@ -191,9 +191,21 @@ def falsify_C06(ctx):
     sds = [gen_system(rng) for _ in range(n)]
     ops = [system_op(sd) for sd in sds]
     res = real(ops)
+    # phase 2: converged systems again with divergence limits at / around the returned bound
+    # (every least solution exists below the limit, or just does not)
+    sds2 = []
+    for sd, r in zip(sds, res):
+        if r.startswith("ok ") and r != "ok 0":
+            R = int(r.split()[1])
+            for lim in {max(R - 1, 0), R, R + rng.randint(1, 3), R + rng.randint(3, max(R, 4))}:
+                if lim != sd["limit"] and rng.random() < 0.6:
+                    sds2.append(dict(sd, limit=lim))
+    ops2 = [system_op(sd) for sd in sds2]
+    res = res + real(ops2)
+    sds, ops = sds + sds2, ops + ops2
     tabs = fetch_tables(sds)
     cex, samples, nontrivial = [], [], set()
-    dist = {}
+    dist = {"phase2_limits_around_bound": len(sds2)}
     for sd, op, r, tb in zip(sds, ops, res, tabs):
         dist[sd["kind"]] = dist.get(sd["kind"], 0) + 1
         if tb is None:
@@ -251,6 +263,18 @@ def mf_not_am(cs):
 
 def any_bad_mf(costs):
     return any(c[0] == "mf" and mf_not_am(c[1]) for c in costs)
+
+
+def model(ops):
+    """the same operation lines evaluated by the Lean model (native driver)"""
+    return common.run_parallel(common.lean_bin(), ops)
+
+
+def shift_task(jobsets, i, A):
+    """all tasks start together at 0, task i's releases are delayed by A"""
+    js = sync(jobsets)
+    return [[(rl + (A if ti == i else 0), c) for rl, c in j] for ti, j in enumerate(js)]
+
 
 
 def falsify_C03(ctx):
@@ -315,6 +339,7 @@ def falsify_C01(ctx):
     n = 300 if ctx["tier"] == "quick" else 20000
     cex, samples, nontrivial = [], [], set()
     cases = 0
+    guided = 0
     dist = {}
     for it in range(n):
         tasks = gen_sched_system(rng, "fp")      # index = priority (0 highest)
@@ -343,10 +368,26 @@ def falsify_C01(ctx):
             continue
         R = int(r.split()[1])
         worst = 0
-        for rep in range(4):
-            mode = "wcet" if rep < 3 else "random"
+        reps = list(range(6))
+        mres = model([op])[0]
+        if mres.startswith("ok ") and int(mres.split()[1]) > R:
+            # the model (proved safe and equal to the all-offset evaluation) claims a larger bound:
+            # search the schedules around every offset for a concrete violation
+            guided += 1
+            reps += [("A", a, b) for a in range(0, 41) for b in (0, 1)]
+        for rep in reps:
+            shiftA = None
+            if isinstance(rep, tuple):
+                shiftA, early, rep = rep[1], rep[2], 5
+            elif rep >= 4:
+                shiftA, early = rng.randint(0, 30), rng.randint(0, 1)
+            mode = "wcet" if rep != 3 else "random"
             jobsets = [sim.task_jobs(t["arr"], ("sc", t["C"]), rng.randint(2, 9), rng, mode) for t in tasks]
-            if rep % 2 == 0:
+            if shiftA is not None:
+                jobsets = shift_task(jobsets, i, shiftA)
+                if lp and early:
+                    jobsets = [[(rl + (0 if ti > i else 1), c) for rl, c in js] for ti, js in enumerate(jobsets)]
+            elif rep % 2 == 0:
                 jobsets = sync(jobsets)
                 if lp and rep == 0:
                     # a lower-priority job starts one tick before everyone else
@@ -370,7 +411,7 @@ def falsify_C01(ctx):
             for idx, j in enumerate(jobs):
                 j["idx"] = idx
             rts = sim.simulate(jobs, lambda j: (j["task"], j["idx"]), rng)
-            nontrivial.add((op, rep, len(jobs)))
+            nontrivial.add((op, rep, shiftA, len(jobs)))
             for j, rt in zip(jobs, rts):
                 if j["task"] != i:
                     continue
@@ -384,7 +425,7 @@ def falsify_C01(ctx):
             samples.append({"op": op, "bound": R, "worst_simulated_response": worst})
     return {"cases": cases, "nontrivial": len(nontrivial),
             "rule": "random task sets with distinct priorities x analysed priority level x the four preemption models; blocking bound = longest lower-priority segment - 1; dense admissible releases (synchronous, phased, a lower-priority job started one tick earlier), WCET and random execution times, random legal placement of non-preemptive regions and random tie-breaks; simulated response times of the analysed task vs the real bound; non-trivial = distinct (system, scenario)",
-            "counterexamples": cex, "samples": samples, "distribution": dist}
+            "counterexamples": cex, "samples": samples, "distribution": dict(dist, model_guided_searches=guided)}
 
 
 def falsify_C02(ctx):
@@ -392,6 +433,7 @@ def falsify_C02(ctx):
     n = 300 if ctx["tier"] == "quick" else 20000
     cex, samples, nontrivial = [], [], set()
     cases = 0
+    guided = 0
     dist = {}
     for it in range(n):
         tasks = gen_sched_system(rng, "edf")
@@ -421,10 +463,25 @@ def falsify_C02(ctx):
             continue
         R = int(r.split()[1])
         worst = 0
-        for rep in range(4):
-            mode = "wcet" if rep < 3 else "random"
+        reps = list(range(6))
+        mres = model([op])[0]
+        if mres.startswith("ok ") and int(mres.split()[1]) > R:
+            guided += 1
+            reps += [("A", a, b) for a in range(0, 41) for b in (0, 1)]
+        for rep in reps:
+            shiftA = None
+            if isinstance(rep, tuple):
+                shiftA, early, rep = rep[1], rep[2], 5
+            elif rep >= 4:
+                shiftA, early = rng.randint(0, 30), rng.randint(0, 1)
+            mode = "wcet" if rep != 3 else "random"
             jobsets = [sim.task_jobs(t["arr"], ("sc", t["C"]), rng.randint(2, 9), rng, mode) for t in tasks]
-            if rep % 2 == 0:
+            if shiftA is not None:
+                jobsets = shift_task(jobsets, i, shiftA)
+                if early and len(tasks) > 1:
+                    late = max(range(len(tasks)), key=lambda ti: tasks[ti]["D"])
+                    jobsets = [[(rl + (0 if ti == late else 1), c) for rl, c in js] for ti, js in enumerate(jobsets)]
+            elif rep % 2 == 0:
                 jobsets = sync(jobsets)
                 if rep == 0 and len(tasks) > 1:
                     # the task with the latest deadline starts one tick before everyone else
@@ -446,7 +503,7 @@ def falsify_C02(ctx):
             if not any(j["task"] == i for j in jobs):
                 continue
             rts = sim.simulate(jobs, lambda j: j["dl"], rng)
-            nontrivial.add((op, rep, len(jobs)))
+            nontrivial.add((op, rep, shiftA, len(jobs)))
             for j, rt in zip(jobs, rts):
                 if j["task"] != i:
                     continue
@@ -460,7 +517,7 @@ def falsify_C02(ctx):
             samples.append({"op": op, "bound": R, "worst_simulated_response": worst})
     return {"cases": cases, "nontrivial": len(nontrivial),
             "rule": "random task sets x analysed task x the four EDF preemption models x arbitrary relative deadlines (also equal ones: ties everywhere); dense admissible releases (synchronous, phased, the latest-deadline task started one tick earlier), WCET and random execution times, random legal placement of non-preemptive regions, random tie-breaks among equal absolute deadlines; simulated response times vs the real bound; non-trivial = distinct (system, scenario)",
-            "counterexamples": cex, "samples": samples, "distribution": dist}
+            "counterexamples": cex, "samples": samples, "distribution": dict(dist, model_guided_searches=guided)}
 
 
 # ---------------------------------------------------------------------------
@@ -482,6 +539,14 @@ def harden_arr(a, rng):
     """a harder arrival model (more arrivals in every window), or None"""
     k = a[0]
     if k == "spo":
+        u = rng.random()
+        if u < 0.2:
+            # across a threshold: jitter up to the next multiple of the period (simultaneous releases)
+            T, J = a[1], a[2]
+            return ("spo", T, (J // T + 1) * T - rng.randint(0, 1) * (1 if (J // T + 1) * T - 1 > J else 0)), "jitter"
+        if u < 0.3 and 1 <= a[2] < a[1]:
+            # period shortened down to the jitter
+            return ("spo", a[2], a[2]), "period"
         if rng.random() < 0.5:
             return ("spo", a[1], a[2] + rng.randint(1, 6)), "jitter"
         if a[1] > 1:
@@ -691,6 +756,39 @@ def falsify_C17(ctx):
                 lim2 = lim + rng.randint(1, 200)
             hard = f"{k} {gen.supply_str(s2)} {st_mod.workload_str(cb2, sub)} {lim2}"
             pairs.append((base, hard, f"{k}_" + what, k))
+    # parameter sweeps: chains of consecutive hardenings of the analysed task's own jitter / period
+    # (cross every threshold: jitter = k * period, simultaneous releases)
+    nsweeps = 60 if ctx["tier"] == "quick" else 3000
+    for i in range(nsweeps):
+        kind = rng.choice(["fp_p", "fp_np", "fp_lp", "fp_fl", "edf_p", "edf_np", "edf_lp", "edf_fl", "fifo"])
+        sd = gen_system(rng, kind=kind, small_limit=False)
+        sd["limit"] = max(sd["limit"], 400)
+        T = rng.randint(2, 12)
+        if rng.random() < 0.6:
+            chain = [("spo", T, J) for J in range(0, 2 * T + 3)]
+            w = "sweep_jitter"
+        else:
+            J = rng.randint(0, 2 * T)
+            chain = [("spo", T2, J) for T2 in range(T + 4, 0, -1)]
+            w = "sweep_period"
+        chain_ops = []
+        for a in chain:
+            h = copy.deepcopy(sd)
+            if kind == "fifo":
+                c0 = h["tasks"][1][0]
+                if c0[0] != "rbf":
+                    break
+                h["tasks"] = ("ragg", [("rbf", a, c0[2])] + list(h["tasks"][1][1:]))
+            elif "arr" in sd:
+                h["arr"] = a
+                h["tua"] = ("rbf", a, ("sc", sd["C"]))
+            else:
+                if sd["tua"][0] != "rbf":
+                    break
+                h["tua"] = ("rbf", a, sd["tua"][2])
+            chain_ops.append(system_op(h))
+        for b, h in zip(chain_ops, chain_ops[1:]):
+            pairs.append((b, h, w, kind))
     ops = [p[0] for p in pairs] + [p[1] for p in pairs]
     res = real(ops)
     half = len(pairs)
